@@ -123,6 +123,65 @@ func c13Algebra(name string, store bool) {
 	c13Check(m, name, fwd, rev)
 }
 
+// a multi-key command that is refused half-way (an operand of another type, a missing operand) must
+// release every stripe it took: afterwards a writer on each of its keys gets through
+func c13Refused(name string, store bool) {
+	m := hNewDb(2)
+	keys := [][]byte{bs("a"), bs("b"), bs("c")}
+	for _, k := range keys {
+		switch vfChoice("operand", 3) {
+		case 0:
+			c13Seed(m, 'e', k)
+		case 1:
+			c13Seed(m, 's', k)
+		}
+	}
+	cmd := [][]byte{bs(name)}
+	if store {
+		cmd = append(cmd, bs("d"))
+	}
+	cmd = append(cmd, keys...)
+	hExec(m, cmd...)
+	for _, k := range append(keys, bs("d")) {
+		hExec(m, bs("del"), k) // would block forever on a leaked stripe (deadlock verdict / replay time-out)
+	}
+}
+
+func VF_C13_refused_sdiff()       { c13Refused("sdiff", false) }
+func VF_C13_refused_sinter()      { c13Refused("sinter", false) }
+func VF_C13_refused_sunion()      { c13Refused("sunion", false) }
+func VF_C13_refused_sdiffstore()  { c13Refused("sdiffstore", true) }
+func VF_C13_refused_sinterstore() { c13Refused("sinterstore", true) }
+func VF_C13_refused_sunionstore() { c13Refused("sunionstore", true) }
+func VF_C13_refused_smove() {
+	m := hNewDb(2)
+	for _, k := range [][]byte{bs("a"), bs("b")} {
+		switch vfChoice("operand", 3) {
+		case 0:
+			c13Seed(m, 'e', k)
+		case 1:
+			c13Seed(m, 's', k)
+		}
+	}
+	hExec(m, bs("smove"), bs("a"), bs("b"), bs("a"))
+	hExec(m, bs("del"), bs("a"))
+	hExec(m, bs("del"), bs("b"))
+}
+func VF_C13_refused_lmove() {
+	m := hNewDb(2)
+	for _, k := range [][]byte{bs("a"), bs("b")} {
+		switch vfChoice("operand", 3) {
+		case 0:
+			c13Seed(m, 'l', k)
+		case 1:
+			c13Seed(m, 's', k)
+		}
+	}
+	hExec(m, bs("lmove"), bs("a"), bs("b"), bs("left"), bs("right"))
+	hExec(m, bs("del"), bs("a"))
+	hExec(m, bs("del"), bs("b"))
+}
+
 func VF_C13_order_sdiff()       { c13Algebra("sdiff", false) }
 func VF_C13_order_sinter()      { c13Algebra("sinter", false) }
 func VF_C13_order_sunion()      { c13Algebra("sunion", false) }
@@ -281,6 +340,31 @@ func c13pair_smove_sunionstore() {
 
 // (d) atomicity: an observer on another thread issuing two single-key reads can never see a
 // multi-key command half applied (in the order that would expose it), under every schedule.
+// c13Forced runs the two-key command and a single-key command on its source concurrently. Under gosx every
+// schedule within the bound is explored. Natively the schedule the solver typically finds - the single-key
+// command lands while the two-key command is waiting for its stripes - is forced: the harness holds the
+// destination's stripe so that the two-key command parks in LockMulti, lets the other command finish, then
+// releases the stripe.
+func c13Forced(m *MemDb, src, dst []byte, multi, single func()) {
+	if vfIsSymbolic() {
+		vfSpawn(multi)
+		vfSpawn(single)
+		vfWaitAll()
+		return
+	}
+	if m.locks.GetKeyPos(string(src)) == m.locks.GetKeyPos(string(dst)) {
+		multi()
+		single()
+		return
+	}
+	m.locks.Lock(string(dst))
+	vfSpawn(multi)
+	time.Sleep(100 * time.Millisecond)
+	single()
+	m.locks.UnLock(string(dst))
+	vfWaitAll()
+}
+
 func c13Atomic(which int) {
 	vfOpt("concurrent", 1)
 	vfOpt("racecheck", 1)
@@ -332,6 +416,22 @@ func c13Atomic(which int) {
 		vfSpawn(func() { first = hExec(m, bs("sismember"), a, bs("x")); second = hExec(m, bs("sismember"), b, bs("x")) })
 		vfWaitAll()
 		vfAssert(!(first.n == 0 && second.n == 0), "smove-member-never-in-neither-set")
+	case 7: // LMOVE a b || DEL a: the element is moved or deleted, never both
+		hExec(m, bs("rpush"), a, bs("e"))
+		c13Forced(m, a, b, func() { first = hExec(m, bs("lmove"), a, b, bs("left"), bs("right")) }, func() { second = hExec(m, bs("del"), a) })
+		moved := hExec(m, bs("llen"), b)
+		vfAssert(!(second.n == 1 && moved.n == 1), "lmove-and-del-both-took-the-element")
+		vfAssert(second.n == 1 || moved.n == 1, "lmove-or-del-took-the-element")
+	case 8: // SMOVE a b x || DEL a
+		hExec(m, bs("sadd"), a, bs("x"))
+		c13Forced(m, a, b, func() { first = hExec(m, bs("smove"), a, b, bs("x")) }, func() { second = hExec(m, bs("del"), a) })
+		moved := hExec(m, bs("scard"), b)
+		vfAssert(!(second.n == 1 && moved.n == 1), "smove-and-del-both-took-the-member")
+	case 9: // RENAME a b || DEL a
+		hExec(m, bs("set"), a, bs("v"))
+		c13Forced(m, a, b, func() { first = hExec(m, bs("rename"), a, b) }, func() { second = hExec(m, bs("del"), a) })
+		moved := hExec(m, bs("exists"), b)
+		vfAssert(!(second.n == 1 && moved.n == 1), "rename-and-del-both-took-the-value")
 	}
 	vfAssert(vfLocksHeld() == 0, "atomic-no-lock-left")
 }
@@ -343,6 +443,9 @@ func VF_C13_atomic_lmove_dup()   { c13Atomic(3) }
 func VF_C13_atomic_lmove_lost()  { c13Atomic(4) }
 func VF_C13_atomic_smove_both()  { c13Atomic(5) }
 func VF_C13_atomic_smove_none()  { c13Atomic(6) }
+func VF_C13_atomic_lmove_del()   { c13Atomic(7) }
+func VF_C13_atomic_smove_del()   { c13Atomic(8) }
+func VF_C13_atomic_rename_del()  { c13Atomic(9) }
 
 // (e) a second writer on the destination key runs concurrently with the two-key command: both keys
 // must be protected for its whole duration (no data race on the destination value)
